@@ -14,7 +14,7 @@ EXPLANATION = ("real calculus_addition / subtraction / multiplication / division
                "(digits only, no leading zero).  Bounded in D; the per-digit loop invariant that lifts it to any length is a written argument")
 STUBS = []
 ASSUMPTIONS = ["input numbers are canonical (no leading zeros); subtraction only when the result is non-negative; division by 1..9"]
-BUDGET_S = {"quick": 900, "thorough": 7200}
+BUDGET_S = {"quick": 900, "thorough": 1500}
 
 
 def make_loader(cfg):
